@@ -168,6 +168,8 @@ def rate_value(cc, cat, key, date, ext):
     """(percent text | None, surcharge text | None, exempt, rate ext) per the property: latest since <= date
     among the values whose ext filter applies (first such in table order)."""
     r = regime(cc)
+    if r is None:
+        return "keep", None, False, {}      # no regime for the country: the key fixes nothing
     for c in r["categories"]:
         if c["code"] != cat:
             continue
@@ -194,6 +196,8 @@ def rate_value(cc, cat, key, date, ext):
 
 def cat_retained(cc, cat):
     r = regime(cc)
+    if r is None:
+        return False        # country without a regime: Combo.calculate leaves the combo alone (not retained, values as given)
     for c in r["categories"]:
         if c["code"] == cat:
             return bool(c.get("retained"))
@@ -632,7 +636,15 @@ class Gen:
     def taxes(self, cc, allow_included_safe=False):
         rng = self.rng
         if cc == "ES":
-            k = rng.randrange(16)
+            k = rng.randrange(18)
+            if k >= 16:     # a rate KEY that fixes no value (country without a regime): rows with the same key and different
+                            # percentages - or one of them exempt - are different groups
+                t = {"cat": "VAT", "country": rng.choice(["JP", "JP", "SE"]), "rate": rng.choice(["reduced", "reduced", "standard"])}
+                if rng.random() < 0.8:
+                    t["percent"] = rng.choice(["8%", "5%", "10%", "8.0%"])
+                    if rng.random() < 0.2:
+                        t["surcharge"] = rng.choice(["1%", "2%"])
+                return [t]
             if k == 12:     # same percentage with and without an extension: groups must stay apart, in either order
                 ext = rng.choice([{"es-zz-kind": "A"}, {"es-zz-kind": "B"}, {"es-zz-kind": "A", "es-zz-more": "X"}, {"es-zz-more": "X"},
                                   {"es-zz-kind": "A", "es-zz-more": "X", "es-zz-z": "1"}])   # incl. strict sub-maps of one another
@@ -656,10 +668,12 @@ class Gen:
                 return [{"cat": "VAT", "rate": rng.choice(["standard+eqs", "reduced+eqs"])}]
             if k == 3:
                 return [{"cat": "VAT", "rate": "exempt"}] if self.has_exempt else [{"cat": "VAT", "rate": "zero"}]
-            if k == 4:
-                return [{"cat": "VAT", "rate": "reduced"}, {"cat": "IRPF", "percent": "15%"}]
+            if k == 4:      # retained category after, before, or without the ordinary one (the first category met sets the sum's precision)
+                ts = [{"cat": "VAT", "rate": "reduced"}, {"cat": "IRPF", "percent": rng.choice(["15%", "7%", "19%"])}]
+                return ts if rng.random() < 0.5 else (ts[::-1] if rng.random() < 0.7 else ts[1:])
             if k == 5:
-                return [{"cat": "VAT", "percent": rng.choice(PCT[:9])}, {"cat": "IRPF", "rate": "pro"}]
+                ts = [{"cat": "VAT", "percent": rng.choice(PCT[:9])}, {"cat": "IRPF", "rate": "pro"}]
+                return ts if rng.random() < 0.5 else ts[::-1]
             if k == 6:
                 return [{"cat": "IGIC", "rate": rng.choice(["standard", "reduced", "zero"])}]
             if k == 7:
